@@ -197,7 +197,7 @@ func (s *Sim) selectBegin(t *Task, site string, cases []Case) (idx int, ready bo
 	k := 0
 	if nready > 1 {
 		k = s.chooseRaw(StreamSched, nready)
-		s.Counts["probe:select-multi-ready"]++
+		s.Count("probe:select-multi-ready")
 	}
 	for i := range cases {
 		if cases[i].ready() {
